@@ -439,6 +439,33 @@ def check_group_indexing(run, tree):
             run.violated(construct, "src/osyris/core/datagroup.py", "raises %s" % e, "sortby")
         except ERR as e:
             run.unresolved(construct, "src/osyris/core/datagroup.py", "cannot fold: %s" % e)
+    # aliasing inside the group: the same Array object under two names, a Vector component also stored as a member,
+    # and the index itself being a member: still ONE permutation per member
+    construct = DG_Q + ".sortby[aliased members]"
+    try:
+        g = make_group(tree, hooks)
+        cont = g._attrs["_container"]
+        call_method(tree, hooks, g, "__setitem__", "a2", cont["a"])
+        comp_x = vector_components(tree, cont["v"], hooks)["x"]
+        call_method(tree, hooks, g, "__setitem__", "vx", comp_x)
+        order = A("order", 4, "dimensionless")
+        cont_keys = list(g._attrs["_container"])
+        call_method(tree, hooks, g, "sortby", RawTok("perm", (4,)))
+        cont = g._attrs["_container"]
+        problems = []
+        for k, m in cont.items():
+            got = member_origin(tree, hooks, m)
+            src = {"a2": "a", "vx": "v.x"}.get(k, k)
+            want = {c: ("idx", "v." + c, "perm") for c in "xyz"} if k == "v" else ("idx", src, "perm")
+            if got != want:
+                problems.append("%s -> %s (required %s)" % (k, got, want))
+        run.ob(construct, not problems and list(cont) == cont_keys, "src/osyris/core/datagroup.py", "; ".join(problems[:3]) or
+               "an Array object reachable twice (two names; Vector component stored as a member) is permuted once",
+               "sortby permutes the data of shared Array objects in place: an object reachable twice is permuted twice and its rows no longer line up")
+    except (Raised, ProgramRaised) as e:
+        run.violated(construct, "src/osyris/core/datagroup.py", "raises %s" % e, "sortby on a group with aliased members")
+    except ERR as e:
+        run.unresolved(construct, "src/osyris/core/datagroup.py", "cannot fold: %s" % e)
     try:
         g = make_group(tree, hooks)
         before = group_state(tree, hooks, g)
